@@ -20,7 +20,8 @@ _AMBIENT_CALLS = [
     ('thread-local', re.compile(r'\bLocalKey::<')),
     ('clock', re.compile(r'\b(Instant|SystemTime)::now\b|\bUNIX_EPOCH\b')),
     ('environment', re.compile(r'\benv::(var|var_os|vars|vars_os|args|args_os|current_dir|current_exe|temp_dir|home_dir)\b')),
-    ('thread-identity', re.compile(r'\bthread::current\b|\bThreadId\b|\bprocess::id\b|\bavailable_parallelism\b')),
+    ('thread-identity', re.compile(r'\bthread::current\b|\bThreadId\b|\bprocess::id\b|\bavailable_parallelism\b|\bthread::(spawn|scope|Builder)\b')),
+    ('address', re.compile(r'::(addr|expose_provenance|expose_addr)\b')),
     ('random', re.compile(r'\bRandomState::new\b|\bgetrandom\b|\brand::|\bthread_rng\b|\bfastrand\b|\bDefaultHasher::new\b')),
     ('lazy-static', re.compile(r'<(std::sync::)?(LazyLock|Lazy)<.*> as (std::ops::)?Deref>::deref')),
 ]
